@@ -74,6 +74,11 @@ private theorem keeps_R_close (w₀ : World) : Keeps (R w₀) ctlClose := by
   exact keeps_bind (keeps_R_emit _ _ rfl) fun _ => keeps_bind (keeps_R_emit _ _ rfl) fun _ =>
     keeps_of_rel R_trans (fun _ => R_of_append (δ := []) rfl (by simp) (good_nil _)) w₀
 
+private theorem keeps_R_drop (w₀ : World) : Keeps (R w₀) connectDrop := by
+  unfold connectDrop
+  exact keeps_bind (keeps_R_emit _ _ rfl) fun _ =>
+    keeps_of_rel R_trans (fun _ => R_of_append (δ := []) rfl (by simp) (good_nil _)) w₀
+
 private theorem keeps_R_send (w₀ : World) (c : Bytes) : Keeps (R w₀) (ctlSend c) := by
   refine keeps_of_rel R_trans (fun w => ?_) w₀
   rw [ctlSend_eq]
@@ -126,6 +131,7 @@ private theorem atoms (w₀ : World) : AtomsD (R w₀) where
   recv := keeps_ctlRecv (keeps_R_emit w₀ _ rfl) (fun f h => keeps_R_mod w₀ f fun w => frameD_of_frame (h w))
     (keeps_R_recvTail w₀)
   close := keeps_R_close w₀
+  drop := keeps_R_drop w₀
   copen := keeps_R_copen w₀
   modD := keeps_R_mod w₀
   emitD := keeps_R_emit w₀
